@@ -3,13 +3,19 @@
 package tokenV2
 
 import (
+	"context"
 	"errors"
+	"fmt"
 	nethttp "net/http"
 	"time"
 
 	"github.com/google/uuid"
 	"github.com/labstack/echo/v4"
+	"github.com/lestrrat-go/jwx/v2/jwk"
 	"github.com/lestrrat-go/jwx/v2/jwt"
+	"github.com/nuts-foundation/nuts-node/audit"
+	"github.com/nuts-foundation/nuts-node/core"
+	"github.com/sirupsen/logrus"
 )
 
 // hCtx is an echo.Context that knows its request, records Set() calls and the response written.
@@ -368,5 +374,246 @@ func H04c_twin() {
 	hUUIDOK = true
 	if bestPracticesCheck(t) == nil && sec.exp-sec.iat == hMaxLifetimeSec && sec.nbf == sec.iat+1 {
 		vAssert(false, "H04c_twin.reach: reachable")
+	}
+}
+
+// ---------------------------------------------------------------------------------------------
+// H04d: composition of checkConnectionAuthorization.
+//
+// jwt.ParseString stand-in. Contract of jwx: with jwt.WithKeySet(set, ...) the call succeeds iff one of
+// the message's signatures verifies under a key of `set`; the claims of the returned token are those of
+// the payload and do not depend on the key. The verdict per authorised key is chosen by the harness; the
+// key set is recovered from the REAL option object built by the real jwt.WithKeySet.
+// jwt.Validate stand-in. Contract of jwx: the base validators (iat/exp/nbf against the clock) and then
+// every validator passed as option must succeed. The base verdict is chosen by the harness; validators
+// passed as options (the real object built by jwt.WithAudience) are run for real on the token.
+
+//verif:stub github.com/lestrrat-go/jwx/v2/jwt.ParseString => hJWTParseString
+//verif:stub github.com/lestrrat-go/jwx/v2/jwt.Validate => hJWTValidate
+
+//verif:stub github.com/nuts-foundation/nuts-node/audit.Log => hAuditLog
+
+// audit.Log stand-in: keeps the real function's preconditions (it panics on a context without audit info
+// and on an empty actor, operation or event name) and drops the logrus plumbing, which the engine's
+// logrus model (empty bodies, nil formatter) cannot initialise.
+func hAuditLog(ctx context.Context, logger *logrus.Entry, eventName string) *logrus.Entry {
+	info := audit.InfoFromContext(ctx)
+	if info == nil {
+		panic("audit: no audit info in context")
+	}
+	if info.Actor == "" {
+		panic("audit: actor is empty")
+	}
+	if info.Operation == "" {
+		panic("audit: operation is empty")
+	}
+	if eventName == "" {
+		panic("audit: eventName is empty")
+	}
+	hAuditEvents = append(hAuditEvents, eventName)
+	return nil
+}
+
+var hAuditEvents []string
+
+type hJWKSet = jwk.Set // (alias: jwk.Set has a method named Set, which an embedded field "Set" would hide)
+
+type hSet struct {
+	hJWKSet
+	id int
+}
+
+var hVerifies [2]bool // does the credential verify under authorised key i
+var hTheToken *hToken
+var hJWTParseArgs []string
+var hJWTParseKeys []int
+var hTimeValid bool
+var hValidated []jwt.Token
+
+func hJWTParseString(s string, options ...jwt.ParseOption) (jwt.Token, error) {
+	hJWTParseArgs = append(hJWTParseArgs, s)
+	key := -1
+	for _, o := range options {
+		if fmt.Sprintf("%T", o.Ident()) == "jwt.identKeySet" {
+			set := vGetField(o.Value(), "set").(jwk.Set)
+			key = set.(*hSet).id
+		}
+	}
+	hJWTParseKeys = append(hJWTParseKeys, key)
+	if key >= 0 && hVerifies[key] {
+		return hTheToken, nil
+	}
+	return nil, errors.New("harness: could not verify message using any of the signatures or keys")
+}
+
+func hJWTValidate(t jwt.Token, options ...jwt.ValidateOption) error {
+	hValidated = append(hValidated, t)
+	if !hTimeValid {
+		return errors.New("harness: \"exp\" not satisfied")
+	}
+	for _, o := range options {
+		if v, ok := o.Value().(jwt.Validator); ok {
+			if err := v.Validate(context.Background(), t); err != nil {
+				return err
+			}
+		}
+	}
+	return nil
+}
+
+func H04d() {
+	// --- configuration: skipper, audience, 0..2 authorised keys with arbitrary one-byte user names
+	var skipVerdict, skipperAsked bool
+	m := middlewareImpl{}
+	if vBool() {
+		vTag("skip")
+		skipVerdict = vBool()
+		m.skipper = func(echo.Context) bool { skipperAsked = true; return skipVerdict }
+	}
+	vTag("audience")
+	m.audience = vString(1)
+	nk := vLen(0, vParam("keys", 2))
+	for i := 0; i < nk; i++ {
+		vTag("comment")
+		m.authorizedKeys = append(m.authorizedKeys, authorizedKey{keyID: "k", comment: vString(1), jwkSet: &hSet{id: i}})
+		vTag("verifies")
+		hVerifies[i] = vBool()
+	}
+	// --- request: Authorization header absent, foreign scheme, malformed, or a bearer credential
+	var ctx *hCtx
+	bearer := false
+	switch vChoice(4) {
+	case 0:
+		ctx = hCtxWithAuthorization()
+	case 1:
+		ctx = hCtxWithAuthorization("Basic tok")
+	case 2:
+		ctx = hCtxWithAuthorization("Bearer tok tok")
+	case 3:
+		ctx = hCtxWithAuthorization("bEARER \ttok")
+		bearer = true
+	}
+	// --- what jwx reports about the credential
+	vTag("parseFails")
+	hJWSFail = vBool()
+	ns := vLen(0, vParam("maxsigs", 2))
+	sigsClean := true
+	for i := 0; i < ns; i++ {
+		h := &hHeaders{alg: "ES256"}
+		if vBool() {
+			h.alg = "HS256"
+			sigsClean = false
+		}
+		vTag("hasJWK")
+		h.hasJWK = vBool()
+		if h.hasJWK {
+			sigsClean = false
+		}
+		hJWSSigs = append(hJWSSigs, h)
+	}
+	tok, sec := hSymToken()
+	tok.aud = nil
+	na := vLen(0, 2)
+	audOK := false
+	for i := 0; i < na; i++ {
+		vTag("aud")
+		a := vString(1)
+		tok.aud = append(tok.aud, a)
+		if a == m.audience {
+			audOK = true
+		}
+	}
+	hTheToken = tok
+	vTag("jtiIsUUID")
+	hUUIDOK = vBool()
+	vTag("timeValid")
+	hTimeValid = vBool()
+
+	nextCalls := 0
+	next := func(c echo.Context) error {
+		nextCalls++
+		vAssert(c == echo.Context(ctx), "H04d.next_gets_context: next handler invoked with another context")
+		return nil
+	}
+	err := m.checkConnectionAuthorization(ctx, next)
+
+	vAssert(nextCalls <= 1, "H04d.next_at_most_once: next handler invoked more than once")
+	if nextCalls == 1 && m.skipper != nil && skipVerdict {
+		vCover("skipped")
+		vAssert(skipperAsked && err == nil, "H04d.skip_passes_through: skipped request did not pass straight through")
+		vAssert(len(hJWTParseArgs) == 0, "H04d.skip_no_verification: skipped request was verified anyway")
+		return
+	}
+	// first authorised key under which the credential verifies
+	signer := -1
+	for i := nk - 1; i >= 0; i-- {
+		if hVerifies[i] {
+			signer = i
+		}
+	}
+	good := bearer && !hJWSFail && ns >= 1 && sigsClean && signer >= 0 && hTimeValid && audOK &&
+		hBestPracticeRef(tok, sec, hUUIDOK) && tok.iss == m.authorizedKeys[signer].comment
+	if nextCalls == 1 {
+		vCover("granted")
+		vAssert(bearer, "H04d.bearer_required: request without a bearer credential reached the handler")
+		vAssert(!hJWSFail && sigsClean && ns >= 1, "H04d.credential_secure: credential rejected by the JWS hygiene check reached the handler")
+		if ns >= 2 {
+			vCover("granted-multi-signature")
+			vClass("JSON-serialised JWS with more than one signature")
+		}
+		vAssert(ns == 1, "H04d.exactly_one_signature: a bearer token carrying more than one signature reached the handler")
+		vAssert(len(hJWSArgs) == 1 && hJWSArgs[0] == "tok", "H04d.hygiene_on_received_bytes: hygiene check ran on something else than the received credential")
+		for _, a := range hJWTParseArgs {
+			vAssert(a == "tok", "H04d.verify_received_bytes: signature verification ran on something else than the received credential")
+		}
+		signedBy := false
+		for i := 0; i < nk; i++ {
+			if hVerifies[i] && m.authorizedKeys[i].comment == tok.iss {
+				signedBy = true
+			}
+		}
+		vAssert(signer >= 0, "H04d.signed_by_authorised_key: token verified by no authorised key reached the handler")
+		vAssert(tok.hasIss && signedBy, "H04d.issuer_is_key_owner: issuer is not the user name of an authorised key that verifies the token")
+		vAssert(len(hValidated) >= 1 && hValidated[len(hValidated)-1] == jwt.Token(tok) && hTimeValid, "H04d.validated: token reached the handler without successful jwt.Validate")
+		vAssert(audOK, "H04d.audience: token without the configured audience reached the handler")
+		vAssert(hBestPracticeRef(tok, sec, hUUIDOK), "H04d.best_practices: token violating the claim rules reached the handler")
+		vAssert(ctx.Get(core.UserContextKey) == tok.iss, "H04d.user_is_issuer: request user is not the token issuer")
+		vAssert(err == nil && ctx.written == 0, "H04d.granted_returns_next: granted request did not return the handler's result")
+	} else {
+		vCover("denied")
+		he, isHTTP := err.(*echo.HTTPError)
+		vAssert(isHTTP && he != nil && he.Code == 401, "H04d.denied_is_401: refused request not answered with 401")
+		vAssert(ctx.Get(core.UserContextKey) == "", "H04d.denied_no_user: refused request carries a user name")
+		_, isWriter := ctx.Get(core.ErrorWriterContextKey).(*unauthorizedErrorWriter)
+		vAssert(isWriter, "H04d.denied_uniform_body: refused request does not use the uniform 401 error writer")
+		vAssert(!good, "H04d.valid_token_granted: a request satisfying every rule was refused")
+		if bearer && !hJWSFail && ns >= 1 && sigsClean {
+			if signer < 0 {
+				vCover("denied-no-key-verifies")
+			} else if !hTimeValid || !audOK {
+				vCover("denied-validate")
+			} else if !hBestPracticeRef(tok, sec, hUUIDOK) {
+				vCover("denied-best-practices")
+			} else {
+				vCover("denied-issuer")
+			}
+		}
+	}
+}
+
+func H04d_twin() {
+	m := middlewareImpl{audience: "a"}
+	m.authorizedKeys = []authorizedKey{{keyID: "k", comment: vString(1), jwkSet: &hSet{id: 0}}, {keyID: "k", comment: vString(1), jwkSet: &hSet{id: 1}}}
+	hVerifies[1] = true
+	hJWSSigs = []*hHeaders{{alg: "ES256"}}
+	tok, _ := hSymToken()
+	tok.aud = []string{"b", "a"}
+	hTheToken = tok
+	hUUIDOK, hTimeValid = true, true
+	ctx := hCtxWithAuthorization("Bearer tok")
+	n := 0
+	err := m.checkConnectionAuthorization(ctx, func(echo.Context) error { n++; return nil })
+	if err == nil && n == 1 && len(hJWTParseKeys) == 2 && hJWTParseKeys[1] == 1 && ctx.Get(core.UserContextKey) == tok.iss {
+		vAssert(false, "H04d_twin.reach: reachable")
 	}
 }
